@@ -3,7 +3,7 @@
 cd "$(dirname "$0")/.."
 for sd in ${@:-0 1 2 3 4 5 6 7 8 9}; do
   for p in C03 C08 C09 C04 C12 C20; do
-    VERIF_SEED=$sd python3-vt vcheck.py $p > /tmp/sweep_${sd}_$p.log 2>&1; rc=$?
+    VERIF_EVIDENCE_DIR=/tmp/sweep_ev VERIF_OUT=/tmp/sweep_out VERIF_SEED=$sd python3-vt vcheck.py $p > /tmp/sweep_${sd}_$p.log 2>&1; rc=$?
     echo "seed=$sd $p rc=$rc $(tail -1 /tmp/sweep_${sd}_$p.log | cut -c1-150)"
     [ $rc -ne 0 ] && grep -E "VIOLATION|why|VACUITY|HARNESS" /tmp/sweep_${sd}_$p.log | head -5
   done
